@@ -290,6 +290,7 @@ type geLine struct {
 	I      int     `json:"i"`
 	Note   string  `json:"note"`
 	Bytes  int     `json:"bytes"`
+	Skip   bool    `json:"skip"` // no save/reload/evaluation after this step (sparse observation)
 }
 
 var metaPaths = map[int]string{1: "notes.n1.text", 2: "nodes.Node-0.position", 3: "top"}
@@ -508,13 +509,20 @@ func reloadApp(data []byte) (app *generator.App, ok bool) {
 	return app, true
 }
 
-func runGE(enc *json.Encoder, h int, hist GEHistory) {
+func runGE(enc *json.Encoder, h int, hist GEHistory, stride int) {
 	app := &generator.App{Name: "verif", Version: "1", Description: "graph edit replay"}
 	app.VerifGraph()
 	_ = enc.Encode(geLine{K: "reset", H: h, Orig: emptyProj(), Reload: emptyProj(), H1: []int{}, H2: []int{}})
 	for i, st := range hist.Steps {
 		ln := geLine{K: "step", St: st, H: h, I: i, H1: []int{}, H2: []int{}, Orig: emptyProj(), Reload: emptyProj()}
 		ln.Ok = applyEdit(app, st)
+		// with stride > 1 the application is neither saved nor evaluated after most steps, so that
+		// several edits happen between two evaluations of the edited instance
+		if stride > 1 && (i+1)%stride != 0 && i != len(hist.Steps)-1 && st.Op != "swap" {
+			ln.Skip = true
+			_ = enc.Encode(ln)
+			continue
+		}
 		func() {
 			defer func() {
 				if r := recover(); r != nil {
@@ -540,7 +548,7 @@ func runGE(enc *json.Encoder, h int, hist GEHistory) {
 }
 
 // RunGraphEdit executes edit histories and writes the trace.
-func RunGraphEdit(in, out string) error {
+func RunGraphEdit(in, out string, stride int) error {
 	fi, err := os.Open(in)
 	if err != nil {
 		return err
@@ -565,7 +573,7 @@ func RunGraphEdit(in, out string) error {
 		if err := json.Unmarshal(sc.Bytes(), &hist); err != nil {
 			return fmt.Errorf("history %d: %w", h, err)
 		}
-		runGE(enc, h, hist)
+		runGE(enc, h, hist, stride)
 		h++
 	}
 	return sc.Err()
